@@ -27,6 +27,9 @@ def pruning_sets():
     return out
 
 
+REUSE_KEYS = set()  # blocks that need one more position than the quick bound (copy versus recompute)
+
+
 def instances(tier):
     P, I = B.P, B.I
     alpha = [P(1), P(BIG), I("DUP1"), I("SWAP1"), I("POP"), I("ADD"), I("ISZERO"), I("MSTORE"), I("SLOAD")]
@@ -37,6 +40,19 @@ def instances(tier):
     alpha2 = [P(1), I("DUP1"), I("SWAP1"), I("POP"), I("MSTORE8"), I("SSTORE"), I("MLOAD"), I("MSTORE")]
     b2 = [b for b in B.tree(alpha2, 3, max_need=3) if any(o in ("MSTORE8", "SSTORE", "MLOAD") for o, _ in b)]
     blocks += b2[::3] if tier == "quick" else b2
+    # values that are needed twice and can either be copied (DUP) or recomputed from zero-operand instructions: the
+    # soft constraints must price the recomputation
+    alpha3 = [I("CALLVALUE"), I("ADDRESS"), I("ISZERO"), I("DUP1"), I("SWAP1"), I("ADD"), P(1)]
+    b3 = [b for b in B.tree(alpha3, 4, max_need=1)
+          if sum(1 for o, _ in b if o in ("CALLVALUE", "ADDRESS")) >= 2 and len(b) == 4]
+    reuse = b3[::8] if tier == "quick" else b3
+    reuse += [[I("CALLVALUE"), I("ISZERO"), I("CALLVALUE"), I("ISZERO"), I("SWAP1")],
+              [I("CALLVALUE"), I("ISZERO"), I("CALLVALUE"), I("ISZERO")],
+              [I("ADDRESS"), I("BALANCE"), I("ADDRESS"), I("BALANCE"), I("ADD")],
+              [I("CALLVALUE"), I("CALLVALUE"), I("ADD"), I("CALLVALUE")]]
+    REUSE_KEYS.clear()
+    REUSE_KEYS.update(tuple(b) for b in reuse)
+    blocks += reuse
     for st in ("MSTORE", "MSTORE8", "SSTORE"):
         blocks += [[I(st), I("POP")], [I(st), I("POP"), I("POP")], [I("SWAP1"), I("SWAP1"), I(st), I("POP")],
                    [I("POP"), I(st)], [I("SWAP2"), I("POP"), I(st)]]
@@ -232,7 +248,10 @@ def main(tier, seed, only=None):
         if not value["viols"] and value["multi"] and tot["multi"] % 2000 < 30 and len(chk.cov["samples"]) < 6:
             chk.sample({"block": B.to_text(unit[0]), "configs": value["configs"], "projected_models": value["projections"]})
 
-    tasks = [((), ch) for ch in pool.chunks([(b, prunes, limits) for b in blocks], 2)]
+    wide = dict(limits, b0=limits["b0"] + 1)
+    few = [p for p in prunes if len(p) <= 1] if quick else prunes
+    units = [(b, few, wide) if tuple(b) in REUSE_KEYS else (b, prunes, limits) for b in blocks]
+    tasks = [((), ch) for ch in pool.chunks(units, 2)]
     pool.run_tasks(tasks, work, setup=setup, unit_timeout=900, on_result=on_r)
     chk.cov.update({"states": max(1, tot["nodes"]), "transitions": max(1, tot["assignments"]),
                     "traces_validated_against_impl": tot["decoded"], "instances": tot["instances"],
